@@ -30,6 +30,7 @@ import (
 	"net"
 	"net/http"
 	"net/http/httptest"
+	"net/netip"
 	"net/url"
 	"os"
 	"sort"
@@ -990,8 +991,46 @@ func c20UrlTables(e *emit.Enc, ca, test string) {
 	sort.Strings(hs)
 	e.Len(len(hs))
 	for _, h := range hs {
-		e.Str(h).Bool(certmagic.SubjectIsInternal(h))
+		e.Str(h).Bool(certmagic.SubjectIsInternal(h)).Bool(c20RefInternal(h))
 	}
+}
+
+// c20RefInternal is the harness's own reading of "internal address", written from the special-use
+// registries and not from certmagic's code: the names localhost, *.localhost, *.local, *.internal,
+// *.home.arpa (RFC 6761, 6762, 8375, ICANN's .internal), and loopback, private-use (RFC 1918 /
+// unique-local), link-local, "this network" (0.0.0.0/8) and unspecified IP addresses. The
+// specification clauses judge a plain-HTTP contact by it; certmagic's SubjectIsInternal is only
+// the oracle the model is fed with.
+func c20RefInternal(hostport string) bool {
+	h := hostport
+	if x, _, err := net.SplitHostPort(h); err == nil {
+		h = x
+	}
+	h = strings.TrimSuffix(strings.TrimPrefix(h, "["), "]")
+	if i := strings.IndexByte(h, '%'); i >= 0 && strings.Contains(h, ":") {
+		h = h[:i] // zone of a link-local IPv6 literal
+	}
+	h = strings.TrimSuffix(h, ".") // a fully-qualified name, or an address written like one
+	if ip, err := netip.ParseAddr(h); err == nil {
+		ip = ip.Unmap()
+		return ip.IsLoopback() || ip.IsPrivate() || ip.IsLinkLocalUnicast() || ip.IsUnspecified() || (ip.Is4() && ip.As4()[0] == 0)
+	}
+	b := []byte(h)
+	for i, c := range b {
+		if 'A' <= c && c <= 'Z' {
+			b[i] = c + 'a' - 'A'
+		}
+	}
+	h = string(b)
+	if h == "localhost" {
+		return true
+	}
+	for _, sfx := range []string{".localhost", ".local", ".internal", ".home.arpa"} {
+		if strings.HasSuffix(h, sfx) {
+			return true
+		}
+	}
+	return false
 }
 
 func c20Issuer(ca, test string, proxy func(*http.Request) (*url.URL, error)) *certmagic.ACMEIssuer {
@@ -1007,7 +1046,7 @@ var c20Hosts = []string{"ca.example.com", "acme-v02.api.letsencrypt.org", "local
 	"a.home.arpa", "localhost.", "foo.local.", "foo.local..", "localhost.evil.com", "evillocalhost", "notlocal", "local", "internal", "x.internal.example.com",
 	"127.0.0.1", "127.1", "127.0.0.1.", "10.0.0.1", "172.16.5.5", "172.32.0.1", "192.168.1.1", "169.254.1.1", "8.8.8.8", "0.0.0.0", "0.0.255.1", "0.1.0.0",
 	"[::1]", "[fe80::1]", "[fc00::1]", "[fd12:3456::1]", "[2001:db8::1]", "[::ffff:127.0.0.1]", "[::ffff:8.8.8.8]", "[::8.8.8.8]", "::1", "[::1%25eth0]", "[::]",
-	"0x7f.0.0.1", "2130706433", "0177.0.0.1", "localhost%00.evil.com", "bücher.local", "ca.example.com.local", "LOCAL", ".local", "a.LOCAL", "example.İnternal", "", "-", "a b"}
+	"0x7f.0.0.1", "2130706433", "0177.0.0.1", "[64:ff9b::808:808]", "[100::1]", "[1::1]", "[::2]", "[::1.2.3.4]", "[1ff:ffff::1]", "[200::1]", "localhost%00.evil.com", "bücher.local", "ca.example.com.local", "LOCAL", ".local", "a.LOCAL", "example.İnternal", "", "-", "a b"}
 var c20UserInfos = []string{"", "", "", "user@", "localhost@", "user:pass@", "127.0.0.1:80@", "localhost:80@", "@", "a@b@"}
 var c20Ports = []string{"", "", ":443", ":80", ":14000", ":", ":abc", ":99999", ":0"}
 var c20Paths = []string{"/dir", "/directory", "", "/a/b?x=y", "#frag", "?q=://", "/dir/../x", "\\dir", "/acme/://x", "/ "}
@@ -1228,7 +1267,7 @@ func runC20(tier string, seed int64, outdir string, replay string) error {
 		}
 		bare = strings.TrimSuffix(strings.TrimPrefix(bare, "["), "]")
 		pmu.Lock()
-		seenBy[id] = append(seenBy[id], contact{Plain: q.Method != http.MethodConnect, Host: host, Internal: certmagic.SubjectIsInternal(bare)})
+		seenBy[id] = append(seenBy[id], contact{Plain: q.Method != http.MethodConnect, Host: host, Internal: c20RefInternal(bare)})
 		pmu.Unlock()
 		rw.WriteHeader(http.StatusBadRequest)
 	}))
@@ -1669,6 +1708,11 @@ func runC20(tier string, seed int64, outdir string, replay string) error {
 	}
 	// the old witness: a public test CA over plain HTTP
 	addURL(good, "http://testca.public.example/dir", true)
+	// f979ea4: addresses of ::/7 that are not the loopback (NAT64, discard prefix, IPv4-compatible)
+	for _, h := range []string{"[64:ff9b::808:808]:80", "[100::1]:80", "[::8.8.8.8]:8080", "::1:80", "[::2]:443"} {
+		addURL("http://"+h+"/dir", "", false)
+		addURL(good, "http://"+h+"/dir", true)
+	}
 	for _, sc := range c20Schemes {
 		for _, h := range c20Hosts {
 			u := sc + h + "/dir"
@@ -1679,7 +1723,8 @@ func runC20(tier string, seed int64, outdir string, replay string) error {
 	var jobs []contactJob
 	jobs = append(jobs, contactJob{good, "http://testca.public.example/dir", true}, contactJob{"http://localhost:9/dir", "", false},
 		contactJob{good, "", false}, contactJob{"http://acme.example.com/dir", "", false}, contactJob{good, "http://10.1.2.3/dir", true},
-		contactJob{good, "testca.public.example/dir", true}, contactJob{good, "http:testca.public.example/dir", true})
+		contactJob{good, "testca.public.example/dir", true}, contactJob{good, "http:testca.public.example/dir", true},
+		contactJob{"http://[64:ff9b::808:808]:80/dir", "", false}, contactJob{good, "http://[100::1]:80/dir", true}, contactJob{good, "http://[::1]:80/dir", true})
 	// every host of the table over plain HTTP, as CA and as test CA: whatever the rule lets through
 	// must be internal under the name that is really contacted (0b655e3: "example.İnternal")
 	for _, h := range c20Hosts {
